@@ -36,6 +36,7 @@ func checkC14(c *Ctx, r *Report) {
 	borrow(c, r, c12R4, "C12.R4.pool-release", "C14.R1.pool-release", 2, "the receive buffer is not used after it went back to the pool", nil, "TSIG stripping rewrites the header of the next datagram read into the buffer: that request is answered under another ID, or reaches the handler changed")
 	freshReplies(c, r, "C14.R2.fresh-replies")
 	readThenDispatch(c, r, "C14.R1.read-then-dispatch")
+	errorBeforeSuccess(c, r, "C14.R2.error-before-success", "a message cut inside that field decodes: it reaches the handler instead of being answered with FORMERR or reported to the invalid-message callback", []string{"unpackQuestion", "unpackRRslice", "unpackMsgHdr", "Msg.unpack", "unpackHeader", "UnpackRRWithHeader"})
 	borrow(c, r, c08R5, "C08.R5.escape-skip", "C14.R6.escape-skip", 1, "escapedNameLen steps over a whole \\DDD escape", nil, "a reply whose names carry such escapes is measured too long: Truncate drops records that fit and sets TC for nothing (or too short, and the packed reply exceeds the limit)")
 }
 
